@@ -85,6 +85,9 @@ std::pair<bool, VectorXd> UKFCorrection::getLikelihood()
 
 void UKFCorrection::correctStep(const GaussianMixture& pred_state, GaussianMixture& corr_state)
 {
+    /* No likelihood is available until this correction has used a measurement. */
+    innovations_.resize(0, 0);
+
     /* Pick the correct measurement model. */
     MeasurementModel& model = getMeasurementModel();
 
